@@ -31,6 +31,7 @@ type jsonEx struct {
 	recVar  string            // the recursive parser.Func variable
 	rule    string            // Lean term of rule 0
 	refused []string
+	pkg     string // package of the function being read: an unqualified constructor name is a name of this package
 }
 
 func leanBytes(s string) string {
@@ -55,6 +56,16 @@ func selName(e ast.Expr) string {
 	return ""
 }
 
+// sel is selName, and also reads an unqualified name (not a local) as a name of the package being read
+func (j *jsonEx) sel(e ast.Expr) string {
+	if id, ok := e.(*ast.Ident); ok && j.pkg != "" && id.Name != j.recVar {
+		if _, isLocal := j.locals[id.Name]; !isLocal {
+			return j.pkg + "." + id.Name
+		}
+	}
+	return selName(e)
+}
+
 func strLit(e ast.Expr) (string, bool) {
 	if b, ok := e.(*ast.BasicLit); ok && b.Kind == token.STRING {
 		s, err := strconv.Unquote(b.Value)
@@ -64,7 +75,7 @@ func strLit(e ast.Expr) (string, bool) {
 }
 
 func (j *jsonEx) wsMode(e ast.Expr) string {
-	switch selName(e) {
+	switch j.sel(e) {
 	case "text.WsNone":
 		return ".none"
 	case "text.WsSpaces":
@@ -96,7 +107,7 @@ func (j *jsonEx) interp(e ast.Expr) string {
 	if !ok {
 		return j.refuse("interpreter %s", exprText(e))
 	}
-	switch selName(c.Fun) {
+	switch j.sel(c.Fun) {
 	case "interpreter.Array":
 		if len(c.Args) == 0 {
 			return ".array"
@@ -161,7 +172,7 @@ func (j *jsonEx) expr(e ast.Expr) string {
 			}
 			return j.refuse("method %s", s.Sel.Name)
 		}
-		fn := selName(x.Fun)
+		fn := j.sel(x.Fun)
 		a := x.Args
 		switch fn {
 		case "combinator.SeqOf":
@@ -189,6 +200,14 @@ func (j *jsonEx) expr(e ast.Expr) string {
 					c = ".rtrim"
 				}
 				return "(" + c + " " + j.expr(a[0]) + " " + j.wsMode(a[1]) + ")"
+			}
+		case "parser.End":
+			if len(a) == 0 {
+				return ".eof"
+			}
+		case "parser.Empty":
+			if len(a) == 0 {
+				return ".empty"
 			}
 		case "terminal.Rune":
 			if len(a) == 1 {
@@ -243,6 +262,47 @@ func (j *jsonEx) isLocalOrCall(e ast.Expr) bool {
 		return ok
 	}
 	return false
+}
+
+// oneLiner reads `func name(p parsley.Parser, …) … { return <grammar expression> }` of a package as a Lean function G → … → G
+func oneLiner(dir, pkg, name string) (def string, refused []string) {
+	fset := token.NewFileSet()
+	pkgs, err := parser.ParseDir(fset, filepath.Join(repo, dir), func(fi os.FileInfo) bool { return !strings.HasSuffix(fi.Name(), "_test.go") }, 0)
+	if err != nil {
+		return "", []string{name + ": " + err.Error()}
+	}
+	for _, p := range pkgs {
+		for _, f := range p.Files {
+			for _, d := range f.Decls {
+				fd, ok := d.(*ast.FuncDecl)
+				if !ok || fd.Recv != nil || fd.Name.Name != name || fd.Body == nil {
+					continue
+				}
+				j := &jsonEx{locals: map[string]string{}, pkg: pkg}
+				var params []string
+				for _, fl := range fd.Type.Params.List {
+					if selName(fl.Type) != "parsley.Parser" {
+						j.refuse("parameter of type %s", exprText(fl.Type))
+					}
+					for _, n := range fl.Names {
+						j.locals[n.Name] = n.Name
+						params = append(params, "("+n.Name+" : G)")
+					}
+				}
+				body := ".empty"
+				if rs, ok := fd.Body.List[0].(*ast.ReturnStmt); len(fd.Body.List) == 1 && ok && len(rs.Results) == 1 {
+					body = j.expr(rs.Results[0])
+				} else {
+					j.refuse("body is not a single return")
+				}
+				for i := range j.refused {
+					j.refused[i] = name + ": " + j.refused[i]
+				}
+				return "/-- " + pkg + "." + name + " -/\ndef " + name + " " + strings.Join(params, " ") + " : G :=\n  " + body + "\n\n", j.refused
+			}
+		}
+	}
+	return "", []string{name + ": not found in " + dir}
 }
 
 func writeJsonFacts(path string) error {
@@ -324,14 +384,28 @@ func writeJsonFacts(path string) error {
 	sb.WriteString("/-- rule 0 (`value`): what NewParser assigns to its recursive parser.Func variable and returns -/\n")
 	sb.WriteString("def valueRule : G :=\n  " + j.rule + "\n\n")
 	sb.WriteString("def env : List G := [valueRule]\n\n")
-	tr := "[\"NewParser\"]"
-	if len(j.refused) > 0 {
-		tr = "[]"
+	names := []string{}
+	if len(j.refused) == 0 {
+		names = append(names, "\"NewParser\"")
 	}
+	for i := range j.refused {
+		j.refused[i] = "NewParser: " + j.refused[i]
+	}
+	for _, ol := range [][3]string{{"combinator", "combinator", "Sentence"}, {"text", "text", "Trim"}} {
+		def, ref := oneLiner(ol[0], ol[1], ol[2])
+		if len(ref) == 0 {
+			sb.WriteString(def)
+			names = append(names, strconv.Quote(ol[2]))
+		} else {
+			sb.WriteString("def " + ol[2] + " (p : G) : G := .empty\n\n")
+		}
+		j.refused = append(j.refused, ref...)
+	}
+	tr := "[" + strings.Join(names, ", ") + "]"
 	sb.WriteString("def translatedJson : List String := " + tr + "\n\n")
 	q := make([]string, len(j.refused))
 	for i, r := range j.refused {
-		q[i] = strconv.Quote("NewParser: " + r)
+		q[i] = strconv.Quote(r)
 	}
 	sb.WriteString("/-- what the extractor could not read, with the reason -/\ndef untranslatedJson : List String := [" + strings.Join(q, ", ") + "]\n\nend PV.FactsJson\n")
 	return os.WriteFile(path, []byte(sb.String()), 0o644)
